@@ -619,19 +619,307 @@ fn step(st: &mut Option<Live>, line: &str) -> String {
     }
 }
 
+// ------------------------------------------------------------------------------------------------
+// Several peripherals: ops `dn.*`
+//   `dn.new <own> <baud> <retry> <wd_ms|-> <nslots> (<periph> <slave>)+`   peripherals `add`ed in order
+//        (slots 0 .. n-1), one reference slave each on the same bus; enter_operate()
+//   `dn.turn <now_us> <mid -|slot> <delivery…>`  as `dl.turn`; every slave hears the request, the first
+//        non-silent reply counts; mid = slot whose peripheral gets `request_diagnostics()` mid-request
+//   `dn.power <slot>` `dn.fault <slot> <hex>` `dn.diagreq <slot>` `dn.piq <slot> <hex>` `dn.inputs <slot> <hex>`
+// Observation of a turn: as `dl.turn`, the event as `<cc>:<-|slot:Event>`; summary = per slot
+//   ` [<slot> run= live= i= q= d= | s= m= f= p= o=]`
+// ------------------------------------------------------------------------------------------------
+
+struct LiveN {
+    fdl: fdl::FdlActiveStation,
+    dp: dp::DpMaster<'static>,
+    handles: Vec<dp::PeripheralHandle>,
+    slaves: Vec<Slave>,
+}
+
+impl LiveN {
+    fn summary(&mut self) -> String {
+        let mut out = String::new();
+        for i in 0..self.handles.len() {
+            let p = self.dp.get_mut(self.handles[i]);
+            let d = match p.last_diagnostics() {
+                None => "-".to_string(),
+                Some(d) => {
+                    let ext = match guarded(|| d.extended_diagnostics.raw_diag_buffer().map(|b| b.to_vec())) {
+                        None => "panic".to_string(),
+                        Some(None) => "none".to_string(),
+                        Some(Some(b)) => hex(&b),
+                    };
+                    format!("{:04x}/{}/{}/{}", d.flags.bits(), d.ident_number, opt_u8(d.master_address), ext)
+                }
+            };
+            let s = &self.slaves[i];
+            out.push_str(&format!(
+                " [{} run={} live={} i={} q={} d={} | s={} m={} f={} p={}{}{} o={}]",
+                i,
+                p.is_running() as u8,
+                p.is_live() as u8,
+                hex(p.pi_i()),
+                hex(p.pi_q()),
+                d,
+                match s.state {
+                    SState::WaitPrm => "P",
+                    SState::WaitCfg => "C",
+                    SState::DataExch => "D",
+                },
+                s.master,
+                match s.stored {
+                    None => "-",
+                    Some(false) => "0",
+                    Some(true) => "1",
+                },
+                s.prm_fault as u8,
+                s.cfg_fault as u8,
+                s.diag_pending as u8,
+                hex(&s.outputs)
+            ));
+        }
+        out
+    }
+}
+
+fn dn_new(w: &[&str]) -> Option<Option<LiveN>> {
+    let [own, baud, retry, wd, nslots, rest @ ..] = w else {
+        return None;
+    };
+    if rest.is_empty() || rest.len() % 2 != 0 {
+        return None;
+    }
+    let own = own.parse::<u8>().ok()?;
+    let baud = baud_of(baud.parse::<u64>().ok()?)?;
+    let retry = retry.parse::<u8>().ok()?;
+    let wd = if *wd == "-" { None } else { Some(wd.parse::<u64>().ok()?) };
+    let k = nslots.parse::<usize>().ok()?;
+    let mut ps = vec![];
+    let mut slaves = vec![];
+    for c in rest.chunks(2) {
+        ps.push(parse_periph(c[0])?);
+        slaves.push(parse_slave(c[1])?);
+    }
+    Some(guarded(move || {
+        let mut b = fdl::ParametersBuilder::new(own, baud);
+        b.max_retry_limit(retry);
+        if let Some(x) = wd {
+            b.watchdog_timeout(Duration::from_millis(x));
+        }
+        let fdl = fdl::FdlActiveStation::new(b.build());
+        let slots: Vec<dp::PeripheralStorage<'static>> = (0..k).map(|_| Default::default()).collect();
+        let s: &'static mut [dp::PeripheralStorage<'static>] = Box::leak(slots.into_boxed_slice());
+        let mut dpm = dp::DpMaster::new(s);
+        let handles = ps.into_iter().map(|p| dpm.add(p)).collect();
+        dpm.enter_operate();
+        LiveN { fdl, dp: dpm, handles, slaves }
+    }))
+}
+
+fn turn_n(l: &mut LiveN, now: Instant, mid: Option<usize>, d: &Delivery) -> String {
+    let mut buf = [0u8; 256];
+    let r = l.dp.transmit_telegram(now, &l.fdl, fdl::TelegramTx::new(&mut buf), fdl::HighPrioOnly::No);
+    let (tx, exp, seen, rep, got) = match r {
+        None => ("-".to_string(), None, false, SReply::Silent, None),
+        Some(resp) => {
+            let n = resp.bytes_sent().min(256);
+            let wire = buf[..n].to_vec();
+            let exp = resp.expects_reply();
+            if let Some(i) = mid {
+                if let Some(h) = l.handles.get(i).copied() {
+                    l.dp.get_mut(h).request_diagnostics();
+                }
+            }
+            match d {
+                Delivery::LossReq => {
+                    if let Some(a) = exp {
+                        l.dp.handle_timeout(now, &l.fdl, a);
+                    }
+                    (hex(&wire), exp, false, SReply::Silent, None)
+                }
+                _ => {
+                    // every slave hears the telegram; the first non-silent reply counts
+                    let mut rep = SReply::Silent;
+                    for s in l.slaves.iter_mut() {
+                        let r = s.receive_wire(&wire);
+                        if rep == SReply::Silent {
+                            rep = r;
+                        }
+                    }
+                    let got: Option<Tg> = match exp {
+                        None => None,
+                        Some(_) => match (d, &rep) {
+                            (Delivery::Ok, SReply::Sc) => Some(Tg::Sc),
+                            (Delivery::Ok, SReply::Data(h, pdu)) => Some(Tg::Data(h.clone(), pdu.clone())),
+                            (Delivery::Sub(_), SReply::Silent) => None,
+                            (Delivery::Sub(Tg::Sc), _) => Some(Tg::Sc),
+                            (Delivery::Sub(Tg::Data(h, pdu)), _) => Some(Tg::Data(h.clone(), pdu.clone())),
+                            _ => None,
+                        },
+                    };
+                    if let Some(a) = exp {
+                        match &got {
+                            None => l.dp.handle_timeout(now, &l.fdl, a),
+                            Some(Tg::Sc) => l.dp.receive_reply(
+                                now,
+                                &l.fdl,
+                                a,
+                                fdl::Telegram::ShortConfirmation(fdl::ShortConfirmation),
+                            ),
+                            Some(Tg::Data(h, pdu)) => l.dp.receive_reply(
+                                now,
+                                &l.fdl,
+                                a,
+                                fdl::Telegram::Data(fdl::DataTelegram { h: h.clone(), pdu }),
+                            ),
+                        }
+                    }
+                    (hex(&wire), exp, true, rep, got)
+                }
+            }
+        }
+    };
+    let e = l.dp.take_last_events();
+    let ev = match e.peripheral {
+        None => "-".to_string(),
+        Some((h, ev)) => {
+            let slot = l.handles.iter().position(|x| *x == h).map(|i| i.to_string()).unwrap_or("?".to_string());
+            format!("{}:{}", slot, event_name(ev))
+        }
+    };
+    format!(
+        "tx={} exp={} seen={} rep={} got={} ev={}:{}",
+        tx,
+        opt_u8(exp),
+        seen as u8,
+        show_reply(&rep),
+        match &got {
+            None => "-".to_string(),
+            Some(t) => show_tg(t),
+        },
+        e.cycle_completed as u8,
+        ev
+    )
+}
+
+fn step_n(st: &mut Option<LiveN>, line: &str) -> String {
+    let w: Vec<&str> = line.split(' ').collect();
+    if w[0] == "dn.new" {
+        return match dn_new(&w[1..]) {
+            None => "bad-op".to_string(),
+            Some(None) => {
+                *st = None;
+                "panic".to_string()
+            }
+            Some(Some(mut l)) => {
+                let s = format!("ok ;{}", l.summary());
+                *st = Some(l);
+                s
+            }
+        };
+    }
+    let Some(l) = st.as_mut() else {
+        return "dead".to_string();
+    };
+    let slot_of = |s: &str, n: usize| s.parse::<usize>().ok().filter(|i| *i < n);
+    let n = l.handles.len();
+    let r: Result<Option<String>, ()> = match w.as_slice() {
+        ["dn.turn", now, mid, d @ ..] => {
+            let del = match d {
+                ["ok"] => Some(Delivery::Ok),
+                ["lossreq"] => Some(Delivery::LossReq),
+                ["lossrep"] => Some(Delivery::LossRep),
+                ["sub", tg @ ..] => parse_tg(tg).map(Delivery::Sub),
+                _ => None,
+            };
+            let midv = if *mid == "-" { Some(None) } else { slot_of(mid, n).map(Some) };
+            match (now.parse::<i64>().ok(), midv, del) {
+                (Some(now), Some(midv), Some(del)) => Ok(guarded(|| turn_n(l, Instant::from_micros(now), midv, &del))),
+                _ => Err(()),
+            }
+        }
+        ["dn.power", i] => match slot_of(i, n) {
+            Some(i) => {
+                l.slaves[i].power();
+                Ok(Some("ok".to_string()))
+            }
+            None => Err(()),
+        },
+        ["dn.fault", i, hx] => match slot_of(i, n) {
+            Some(i) => {
+                l.slaves[i].report_fault(unhex(hx));
+                Ok(Some("ok".to_string()))
+            }
+            None => Err(()),
+        },
+        ["dn.diagreq", i] => match slot_of(i, n) {
+            Some(i) => {
+                let h = l.handles[i];
+                Ok(guarded(|| {
+                    l.dp.get_mut(h).request_diagnostics();
+                    "ok".to_string()
+                }))
+            }
+            None => Err(()),
+        },
+        ["dn.piq", i, hx] => match slot_of(i, n) {
+            Some(i) => {
+                let bs = unhex(hx);
+                let h = l.handles[i];
+                Ok(guarded(|| {
+                    let p = l.dp.get_mut(h);
+                    if p.pi_q().len() == bs.len() {
+                        p.pi_q_mut().copy_from_slice(&bs);
+                    }
+                    "ok".to_string()
+                }))
+            }
+            None => Err(()),
+        },
+        ["dn.inputs", i, hx] => match slot_of(i, n) {
+            Some(i) => {
+                l.slaves[i].set_inputs(unhex(hx));
+                Ok(Some("ok".to_string()))
+            }
+            None => Err(()),
+        },
+        _ => Err(()),
+    };
+    match r {
+        Err(()) => "bad-op".to_string(),
+        Ok(None) => {
+            *st = None;
+            "panic".to_string()
+        }
+        Ok(Some(o)) => match guarded(|| l.summary()) {
+            Some(s) => format!("{o} ;{s}"),
+            None => {
+                *st = None;
+                "panic".to_string()
+            }
+        },
+    }
+}
+
 pub struct Exec {
     st: Option<Live>,
+    stn: Option<LiveN>,
 }
 
 impl Exec {
     pub fn new() -> Self {
-        Exec { st: None }
+        Exec { st: None, stn: None }
     }
 }
 
 impl crate::Executor for Exec {
     fn exec(&mut self, line: &str) -> String {
-        step(&mut self.st, line)
+        if line.starts_with("dn.") {
+            step_n(&mut self.stn, line)
+        } else {
+            step(&mut self.st, line)
+        }
     }
 }
 
@@ -880,5 +1168,164 @@ pub fn gen(ops: &mut Vec<String>, seed: u64, thorough: bool) {
         let warm = *rng.pick(&[0u64, 0, 3, 6, 9, 16]);
         let dt = *rng.pick(&[500i64, 3000, 7000, 15000]);
         run_case(ops, &c, warm, &h, dt);
+    }
+    gen_multi(ops, seed, thorough);
+}
+
+// ------------------------------------------------------------------------------------------------
+// Generator, several peripherals
+// ------------------------------------------------------------------------------------------------
+
+fn multi_new_line(cs: &[Cfg]) -> String {
+    let c0 = &cs[0];
+    let mut s = format!(
+        "dn.new {} 500000 {} {} {}",
+        c0.own,
+        c0.retry,
+        c0.wd.map(|x| x.to_string()).unwrap_or("-".to_string()),
+        cs.len() + c0.nslots - 1
+    );
+    for c in cs {
+        s.push_str(&format!(
+            " {}:{}:00:0:{}:{}:{}:{}:{} {}:{}:{}:{}:{}:{}:{}",
+            c.addr,
+            c.ident,
+            hex(&c.prm),
+            hex(&c.cfg),
+            c.ilen,
+            c.qlen,
+            c.dbuf,
+            c.addr,
+            c.ident,
+            c.prm.len(),
+            hex(&c.cfg),
+            c.ilen,
+            c.qlen,
+            hex(&c.inputs)
+        ));
+    }
+    s
+}
+
+#[derive(Clone)]
+enum SymN {
+    Turn(Option<usize>, String),
+    Power(usize),
+    Fault(usize, Vec<u8>),
+    DiagReq(usize),
+    Piq(usize, Vec<u8>),
+    Inputs(usize, Vec<u8>),
+}
+
+fn run_case_multi(ops: &mut Vec<String>, cs: &[Cfg], warm: u64, hist: &[SymN], dt: i64) {
+    ops.push(multi_new_line(cs));
+    let mut now: i64 = 1000;
+    let mut push = |ops: &mut Vec<String>, s: &SymN| match s {
+        SymN::Turn(mid, d) => {
+            now += dt;
+            let m = mid.map(|i| i.to_string()).unwrap_or("-".to_string());
+            ops.push(format!("dn.turn {} {} {}", now, m, d));
+        }
+        SymN::Power(i) => ops.push(format!("dn.power {}", i)),
+        SymN::Fault(i, e) => ops.push(format!("dn.fault {} {}", i, hex(e))),
+        SymN::DiagReq(i) => ops.push(format!("dn.diagreq {}", i)),
+        SymN::Piq(i, b) => ops.push(format!("dn.piq {} {}", i, hex(b))),
+        SymN::Inputs(i, b) => ops.push(format!("dn.inputs {} {}", i, hex(b))),
+    };
+    let ok = SymN::Turn(None, "ok".to_string());
+    for _ in 0..warm {
+        push(ops, &ok);
+    }
+    for s in hist {
+        push(ops, s);
+    }
+    // bound of the oracle in non-broadcast turns, plus the broadcasts in between
+    let n = cs.len() as u64;
+    let kn = (cs[0].retry + 8) * (n + 1) + n;
+    let period = ((20000 + dt - 1) / dt).max(2) as u64;
+    let q = kn * period / (period - 1) + period + 4;
+    for _ in 0..q {
+        push(ops, &ok);
+    }
+}
+
+fn gen_multi(ops: &mut Vec<String>, seed: u64, thorough: bool) {
+    let t = |mid: Option<usize>, d: &str| SymN::Turn(mid, d.to_string());
+    // two peripherals: #7 (one input byte) and #9 (no inputs)
+    let mut c7 = small_cfg(1, 1);
+    c7.nslots = 2;
+    let mut c9 = small_cfg(1, 0);
+    c9.addr = 9;
+    c9.ident = 0x0909;
+    c9.cfg = vec![0x55];
+    c9.prm = vec![];
+    c9.dbuf = 0;
+    let pair = vec![c7.clone(), c9.clone()];
+    let alpha = vec![
+        t(None, "ok"),
+        t(None, "lossreq"),
+        t(None, "lossrep"),
+        t(Some(0), "ok"),
+        t(Some(1), "lossrep"),
+        SymN::Power(0),
+        SymN::Power(1),
+        SymN::DiagReq(0),
+        SymN::DiagReq(1),
+        SymN::Fault(0, vec![0x42, 0x01]),
+        SymN::Fault(1, vec![]),
+    ];
+    let depth = if thorough { 4 } else { 3 };
+    for warm in [0u64, 26] {
+        let mut cur: Vec<SymN> = vec![];
+        fn rec(alpha: &[SymN], depth: usize, cur: &mut Vec<SymN>, f: &mut dyn FnMut(&[SymN])) {
+            if cur.len() == depth {
+                f(cur);
+                return;
+            }
+            for s in alpha {
+                cur.push(s.clone());
+                rec(alpha, depth, cur, f);
+                cur.pop();
+            }
+        }
+        rec(&alpha, depth, &mut cur, &mut |h| run_case_multi(ops, &pair, warm, h, 3000));
+    }
+    // sampled: two or three peripherals, independent fault plans
+    let n = if thorough { 2500 } else { 150 };
+    for case in 0..n {
+        let mut rng = Rng::new(seed, "dplive-multi", case);
+        let k = rng.range(2, 3) as usize;
+        let mut cs: Vec<Cfg> = vec![];
+        for i in 0..k {
+            let mut c = random_cfg(&mut rng);
+            c.addr = 10 + 7 * i as u8 + rng.below(5) as u8;
+            if i > 0 {
+                c.own = cs[0 as usize].own;
+                c.retry = cs[0 as usize].retry;
+                c.wd = cs[0 as usize].wd;
+            }
+            cs.push(c);
+        }
+        let subs: Vec<Vec<String>> = cs.iter().map(sub_alphabet).collect();
+        let depth = rng.range(1, 40) as usize;
+        let mut h = vec![];
+        for _ in 0..depth {
+            let i = rng.below(k as u64) as usize;
+            let mid = if rng.chance(1, 8) { Some(i) } else { None };
+            h.push(match rng.below(100) {
+                0..=17 => t(mid, "lossreq"),
+                18..=31 => t(mid, "lossrep"),
+                32..=37 => t(mid, rng.pick(&subs[i][..]).as_str()),
+                38..=43 => SymN::Power(i),
+                44..=48 => SymN::DiagReq(i),
+                49..=53 => SymN::Fault(i, rng.bytes_below(6)),
+                54..=57 => SymN::Piq(i, rng.bytes(cs[i].qlen)),
+                58..=60 => SymN::Inputs(i, rng.bytes(cs[i].ilen)),
+                _ => t(mid, "ok"),
+            });
+        }
+        let warm = *rng.pick(&[0u64, 0, 5, 12, 30]);
+        let dt = *rng.pick(&[500i64, 3000, 7000, 15000]);
+        run_case_multi(ops, &cs, warm, &h, dt);
     }
 }
